@@ -585,7 +585,7 @@ func (f *Frame) execAlloc(x *ssa.Alloc, st *State) {
 	elem := x.Type().Underlying().(*types.Pointer).Elem()
 	srt := f.vc.sorts.sortOf(elem)
 	if !x.Heap {
-		key := fmt.Sprintf("L:%p:%s", f, x.Name())
+		key := fmt.Sprintf("L:f%d:%s", f.fnum(), x.Name())
 		f.vc.compSrt[key] = srt
 		st.set(key, f.zeroOf(elem))
 		f.vals[x] = &Addr{Kind: aCell, Key: key, Sort: srt, Typ: elem}
